@@ -72,12 +72,13 @@ def small_universe(v, tier):
     return res, out, scen, files.get("tableobs")
 
 
-def real_scale(seed, ncases, variants, maxworkers, prefix="real", kinds=None):
+def real_scale(seed, ncases, variants, maxworkers, prefix="real", kinds=None, badger=False, cli=False):
     """(C) driver.  Returns (outcome, case file, {kind: (trace path, n)})."""
     cases = os.path.join(vlib.sub("scn"), "%s.cases.ndjson" % prefix)
     with open(cases, "w") as f:
         for i in range(ncases):
-            f.write(json.dumps({"seed": seed, "idx": i, "variants": variants, "maxworkers": maxworkers}) + "\n")
+            f.write(json.dumps({"seed": seed, "idx": i, "variants": variants, "maxworkers": maxworkers,
+                                "badger": badger, "cli": cli and i % 3 == 0}) + "\n")
     side = os.path.join(vlib.sub("traces"), "%s.side" % prefix)
     out = vlib.replay("ingestrec", cases, side_path=side, timeout=120)
     return out, cases, split_side(side, prefix)
@@ -93,6 +94,19 @@ def case_of_trace(trace_lines):
         if d.get("op") == "ingest":
             return d.get("cfg", {})
     return {}
+
+
+def find_case(trace_lines):
+    """The generating case spec travels in the first event's cfg (seed, idx...)."""
+    for ln in trace_lines:
+        try:
+            d = json.loads(ln)
+        except Exception:
+            continue
+        c = d.get("cfg") or {}
+        if "case" in c:
+            return c["case"]
+    return None
 
 
 def compact_event(ev):
@@ -116,6 +130,7 @@ def validate_ingest_trace(v, trace, clauses, prop_engine="ingest"):
         cfg = ev.get("cfg", {})
         v.violation("ingest/trace-%s/%s" % (r["clause"], cfg.get("kind", "?")),
                     dict(engine=prop_engine, mode="case", case={"seed": cfg.get("seed"), "kind": cfg.get("kind")},
+                         scenario=find_case(r["trace"]),
                          first_cfg=case_of_trace(r["trace"]), clause=r["clause"], event=compact_event(ev)))
     return n_traces, n_events, len(rejections), mine
 
